@@ -20,7 +20,12 @@ const Rule = "cases = (LL(1) grammar, iteration-shuffle seed, token strings): ra
 	"conflict (Parse must refuse with the table error); plus: cases that change the SAME *CFG object in place between " +
 	"parser constructions (prod/unprod lines, then every string of length <=4 again, judged against the changed grammar), " +
 	"and nestings 1100-1600 levels deep through the real parser (S -> ( S ) | a, S -> a S B | c with B -> b | eps, the " +
-	"expression grammar), judged by an Earley recogniser; non-trivial = conflict-free grammar for which the case parsed a sentence, " +
+	"expression grammar), judged by an Earley recogniser; plus: `parsef L T P : w` — Parse with a lexer whose call L fails " +
+	"and callbacks that return an error at token position T / production-callback call P, for every word of length <=3 and " +
+	"the longer sentences, judged against an independent textbook LL(1) run cut at the first failing call (the error must " +
+	"come back, the callbacks made must be exactly those before it) — `astf`, `parse0` (nil callbacks), `cell A a` (table " +
+	"accessors), every other grammar with a terminal named like a non-terminal; and grammars broken in each way Verify() " +
+	"reports, with `verify` and the parser run all the same (judged against the Model only); non-trivial = conflict-free grammar for which the case parsed a sentence, " +
 	"a non-sentence, and a sentence followed by further tokens; distinct = distinct (header, op list)"
 
 func Exec(c hx.Case) hx.Result { return c10.Exec(c) }
@@ -115,6 +120,66 @@ func Main(run *hx.Run) {
 				}
 			}
 			c := hx.Case{Header: fmt.Sprintf("comp=predictive mix=in-place shuffle=%d", r.Intn(1<<30)), Ops: ops}
+			run.Do("predictive", c, Exec)
+		}
+	}
+	// a lexer that fails at one of its calls, callbacks that return an error at one of theirs (Parse must stop there,
+	// hand that error back and have made exactly the calls before it), ParseAndBuildAST on a failing lexer, Parse
+	// without callbacks, the table accessors; every other grammar with a terminal named like a non-terminal
+	{
+		r := run.R.Fork("faults")
+		for k := 0; k < run.Scale(110); {
+			g := gx.Random(r, mixes[names[r.Intn(len(names))]])
+			if k%2 == 1 {
+				g = c10.SharedNames(r, g)
+			}
+			if !c10.NewOracle(g).ConflictFree() {
+				continue
+			}
+			k++
+			ops := append(g.Lines(), "verify", "table")
+			ops = append(ops, c10.FaultQueries(r, g.Words(3), 3)...)
+			lang := g.LangK(5)
+			for w := range lang {
+				if strings.Count(w, " ") >= 3 {
+					ops = append(ops, c10.FaultQueries(r, []string{w}, 4)...)
+				}
+			}
+			ops = append(ops, c10.CellQueries(r, g)...)
+			for _, w := range g.Words(2) {
+				ops = append(ops, strings.TrimRight("parse "+w, " "), strings.TrimRight("ast "+w, " "))
+			}
+			ops = append(ops, "unchanged")
+			if r.Chance(1, 4) {
+				ops = append(ops, "follow Z")
+			}
+			c := hx.Case{Header: fmt.Sprintf("comp=predictive mix=faults shuffle=%d", r.Intn(1<<30)), Ops: ops}
+			run.Do("predictive", c, Exec)
+		}
+	}
+	// grammars Verify() rejects handed to the parser all the same: which errors Verify() reports, where the table
+	// construction dereferences nil (Parse panics), what the parser answers when it does not
+	{
+		r := run.R.Fork("malformed")
+		for k := 0; k < run.Scale(140); k++ {
+			g := c10.Malform(r, gx.Random(r, mixes["near-ll1"]), k)
+			ops := append(g.Lines(), "verify", "parse a")
+			ws := g.Words(2)
+			var qs []string
+			for j := 0; j < 4; j++ {
+				w := ws[r.Intn(len(ws))]
+				qs = append(qs, strings.TrimRight("!parse "+w, " "))
+				if j%2 == 0 {
+					qs = append(qs, strings.TrimRight("!ast "+w, " "), strings.TrimRight(fmt.Sprintf("!parsef %d - 1 : %s", r.Intn(3), w), " "))
+				}
+			}
+			qs = append(qs, "!parse a z", "!table", "!cell "+hx.Pick(r, g.NonTerms)+" "+hx.Pick(r, g.Terms))
+			for i := len(qs) - 1; i > 0; i-- {
+				j := r.Intn(i + 1)
+				qs[i], qs[j] = qs[j], qs[i]
+			}
+			ops = append(append(ops, qs...), "unchanged")
+			c := hx.Case{Header: fmt.Sprintf("comp=predictive mix=malformed shuffle=%d", r.Intn(1<<30)), Ops: ops}
 			run.Do("predictive", c, Exec)
 		}
 	}
